@@ -190,10 +190,12 @@ def apply_op(roots, op, allow_move=True, direct_inplace=False, prebuilt=None, bu
     if isinstance(cand, pg.Symbolic):
       val, i = cand, idx
       out.used_src = True
-  if _get(op, 'mv') and name in ('setitem', 'setslice', 'insert', 'extend', 'iadd', 'dsetitem', 'dsetattr', 'osetattr',
+  if _get(op, 'mv') and name in ('setitem', 'insert', 'extend', 'iadd', 'dsetitem', 'dsetattr', 'osetattr',
                                  'update', 'ior', 'setdefault', 'rebind_o'):
     # writing MISSING_VALUE is the accessor form of "delete / reset to default"
-    val = pg.MISSING_VALUE if name not in ('setslice', 'extend', 'iadd') else [1, pg.MISSING_VALUE, 2]
+    # (not inside a slice assignment: the marker then stands for a deletion in the middle of the new items, and
+    # the event reports the positions of the intermediate list, as for a rebind batch - see DESIGN 5.26)
+    val = pg.MISSING_VALUE if name not in ('extend', 'iadd') else [1, pg.MISSING_VALUE, 2]
     src = None
     out.used_src = True      # (no fresh value is built)
   sv_flag = bool(_get(op, 'sv'))
